@@ -63,6 +63,8 @@ def execute(run, cov, log):
     if run['ops']:
         cov.add('nontrivial_runs', H(run))
     cov.add('domains', run['domain'])
+    if run.get('blowup'):
+        cov.inc('probe.blowup_mesh_tens_of_thousands_of_leaves')
 
 
 def preload():
@@ -77,6 +79,7 @@ def shrink(run):
 
 def sample_of(run):
     return {'domain': run['domain'], 'ops': run['ops'][:10],
+            'blowup': bool(run.get('blowup')),
             'n_ops': len(run['ops'])}
 
 
